@@ -41,6 +41,8 @@ func init() {
 	generators["C05"] = genList
 	generators["C15"] = genFuzz
 	generators["C14"] = genHuge
+	generators["C20"] = genHandles
+	generators["C16"] = genRace
 	operations["huge"] = opHuge
 	generators["C06"] = genDiskScan
 	generators["C07"] = genDiskFind
